@@ -380,9 +380,17 @@ func scenarios(cfg *mc.Config, emit func(mc.Scenario)) {
 	if thorough {
 		b = 3
 	}
-	for si, sc := range scripts {
+	// (the last script: single very large writes, default chunking only)
+	for si, sc := range append(append([][2][]int{}, scripts...), [2][]int{{65536, 65537}, {200000, 1}}) {
 		for sd := 0; sd < 3; sd++ {
 			si, sc, sd := si, sc, sd
+			b := b
+			if total(sc[0]) > 100000 {
+				if sd > 0 {
+					continue
+				}
+				b = 0
+			}
 			emit(mc.Scenario{Name: fmt.Sprintf("real-real/script%d/seed%d", si, sd), Bound: b, Weight: 200, Run: func(c *mc.Ctx) {
 				rnd.Install(rnd.New(seed, fmt.Sprint("c14-rr-", sd)))
 				cw, sw := wire.Pipe("client", "server")
